@@ -47,7 +47,7 @@ def rjson(rng, depth=0):
 
 
 def rdatetime(rng):
-    y = rng.choice([1000, 1900, 1970, 1999, 2000, 2024, 2038, 9999]) if rng.random() < 0.5 else rng.randint(1000, 9999)
+    y = rng.choice([1, 99, 999, 1000, 1900, 1970, 1999, 2000, 2024, 2038, 9999]) if rng.random() < 0.5 else rng.randint(1, 9999)
     return dt.datetime(y, rng.randint(1, 12), rng.randint(1, 28), rng.randint(0, 23), rng.randint(0, 59),
                        rng.randint(0, 59), rng.choice([0, 1, 999999, 500000, rng.randint(0, 999999)]))
 
